@@ -162,12 +162,8 @@ def pNumUnit (unit : Char) (s : Str) : Option Str × Str :=
     | u :: rest => if u = unit then (some ds, rest) else (none, s)
     | [] => (none, s)
 
-/-- `DURATION_REGS[1]`: `^(?P<sign>[-+]?)P(?:(?P<days>…)D)?(?:T(?:(?P<hours>…)H)?(?:(?P<minutes>…)M)?(?:(?P<seconds>…)S)?)?$` -/
-def reDurationIso (s : Str) : Option DurGroups :=
-  let (sign, s) : Str × Str := match s with
-    | '-' :: r => (['-'], r)
-    | '+' :: r => (['+'], r)
-    | _ => ([], s)
+/-- `DURATION_REGS[1]` after the sign: `P(?:(?P<days>…)D)?(?:T(?:(?P<hours>…)H)?(?:(?P<minutes>…)M)?(?:(?P<seconds>…)S)?)?$` -/
+def reDurBody (sign : Str) (s : Str) : Option DurGroups :=
   match s with
   | 'P' :: s =>
     let (days, s) := pNumUnit 'D' s
@@ -180,6 +176,13 @@ def reDurationIso (s : Str) : Option DurGroups :=
       if s.isEmpty then some ⟨sign, days, hours, minutes, seconds⟩ else none
     | _ => none
   | _ => none
+
+/-- `DURATION_REGS[1]`: `^(?P<sign>[-+]?)P…$` -/
+def reDurationIso (s : Str) : Option DurGroups :=
+  match s with
+  | '-' :: r => reDurBody ['-'] r
+  | '+' :: r => reDurBody ['+'] r
+  | _ => reDurBody [] s
 
 /-- `float(g)` for a group `digits` or `digits.digits{1,6}` as a number of microseconds per `unit` µs;
 `none` where the result would not be an integer number of microseconds (never met) -/
